@@ -48,3 +48,28 @@ func VerifC09PeerMessage(v *verifrt.T) {
 	v.Reach("peer-message-done")
 	v.Assert(!panicked, "C09.peer-message.no-panic")
 }
+
+// VerifC09LargeSend: messages reach Conn.Send from goroutines that have no recover (the
+// presence notifier, the mesh goroutine through onPeerMessage), with sizes a client or a
+// peer chooses. Around the 64 KiB encode buffer every size is either sent whole or refused
+// with an error - never a panic.
+func VerifC09LargeSend(v *verifrt.T) {
+	e := c08new(v)
+	a, asock := hconn(e.svc, 0)
+	sizes := []int{0, 65526, 65527, 65528, 65531, 65536, 65537, 70000}
+	n := sizes[v.Choice(len(sizes), "size")]
+	pay := make([]byte, n)
+	if n > 0 {
+		pay[0], pay[n-1] = v.U8("first"), v.U8("last")
+	}
+	var err error
+	panicked := v.Try(func() { err = a.Send(&message.Message{Channel: []byte("a/"), Payload: pay}) })
+	v.Reach("large-sent")
+	v.Assert(!panicked, "C09.send.no-panic-at-any-size")
+	if err != nil {
+		v.Assert(len(asock.writes) == 0, "C09.send.refused-message-writes-nothing")
+		v.Assert(n+4 > 65535-5, "C09.send.refused-only-when-too-large")
+	} else {
+		v.Assert(len(asock.writes) == 1 && len(asock.writes[0]) > n, "C09.send.whole-packet")
+	}
+}
